@@ -2,7 +2,7 @@
  (1) TLC Render_MC: the transcription of serialize_result satisfies ResultOK for every error word 0..120 (known and
      unknown numbers) x return word x with/without success value; three negative controls (words swapped, precedence
      inverted, success value next to errno) must be rejected.
- (2) code -> spec: every BSD decoder x END tuples (error in {0} u 1..106 u {107, 9999, 2^31, 2^63, 2^64-1}, return
+ (2) code -> spec: every BSD decoder x END tuples (error in {0} u 1..106 u {107, 127..256, 9999, 2^16, 2^31, 2^32, 2^63, 2^64-1, random}, return
      word a distinct probe) x START tuples; the result text is parsed into parts, each number is resolved to the
      probe word it IS; dependencies of the result part / call part are measured by one-at-a-time variation;
      validated by Render_Val!ResultVerdict in TLC."""
@@ -67,7 +67,8 @@ def run(ctx):
                                      allow_error=True), 'serialize_result variant ' + v)
     pr = Prober(rnd)
     names = sorted(n for n, a in AUDIT.items() if n.startswith('BSC_') and a.get('cls'))
-    errs = [0] + list(range(1, 107)) + [107, 9999, 1 << 31, 1 << 63, (1 << 64) - 1]
+    errs = [0] + list(range(1, 107)) + [107, 127, 128, 255, 256, 9999, 65535, 65536, 1 << 31, (1 << 32) - 1, 1 << 32,
+                                        (1 << 32) + 2, 1 << 63, (1 << 64) - 1] + [rnd.getrandbits(64) for _ in range(3)]
     deep = [0, 2, 35, 107, 1 << 63] if ctx.quick else [0, 1, 2, 11, 35, 45, 106, 107, 9999, 1 << 31, 1 << 63, (1 << 64) - 1]
     obs, info = [], {}
     for name in names:
